@@ -1,7 +1,7 @@
 (* Props/C03.v -- property theorems for C03 only. *)
 From LV Require Import Base FS FSFacts LayerEnv LayerEnvFacts LayerShared LayerSharedGone LayerEnvFS LayerEnvFSFacts Determinism LayerEnvFSExact FSInv LayerEnvFSCompose LayerEnvReadback LayerEnvFSRead LayerEnvFSCycle LayerEnvFSProc LayerEnvFSFull LayerEnvFSOrder LayerEnvFSApply.
 From Coq Require Import Lia.
-From LV Require Import ImpPrims ImpFacts.
+From LV Require Import ImpPrims ImpFacts ImpReader.
 From LVGen Require Import GenLayerEnv GenLayerEnvImp.
 
 Theorem c03_tables :
@@ -58,6 +58,30 @@ Proof.
   rewrite bind_ret_tt, c03_write_env_dir_regenerated, <- app_assoc. reflexivity.
 Qed.
 Print Assumptions c03_write_to_layer_dir_regenerated.
+
+Lemma last_name_snoc p nm : last_name (p ++ [nm]) = nm.
+Proof. unfold last_name. apply last_last. Qed.
+
+(* LayerEnvDelta::read_from_env_dir as the translator reads it from layer_env.rs statement by statement
+   IS the model's reader (with the regenerated suffix table and the repaired process-directory rule) *)
+Theorem c03_read_env_dir_regenerated :
+  forall p s, gen_read_from_env_dir p s = read_from_env_dir reader_suffix reader_no_ext true p s.
+Proof.
+  intros p s. unfold gen_read_from_env_dir, read_from_env_dir, names_of. cbv zeta.
+  etransitivity; [apply bindM_assoc|]. apply bindM_ext_gen; [reflexivity|]. intros pl s1.
+  etransitivity; [apply bindM_ret_l|]. etransitivity; [apply bindM_ret_r|].
+  rewrite fold_left_foldM. etransitivity; [|symmetry; apply bindM_ret_l].
+  apply foldM_ext. intros d nm s2.
+  cbn [andb]. etransitivity; [|symmetry; apply (bind_read (is_dir (p ++ [nm])))].
+  destruct (is_dir (p ++ [nm]) s2); [reflexivity|].
+  unfold read_bytes. etransitivity; [apply bindM_assoc|]. apply bindM_ext_gen; [reflexivity|]. intros mc s3.
+  etransitivity; [apply bindM_ret_l|]. unfold file_stem_of, extension_of, entry_behaviour. rewrite last_name_snoc.
+  destruct (split_ext nm) as [stem [ext|]]; cbn [fst snd]; unfold bindM, ret, reader_suffix, reader_no_ext; cbn [reader_beh_of];
+    repeat match goal with |- context [if beq ext ?l then _ else _] => destruct (beq ext l) end; reflexivity.
+Qed.
+Print Assumptions c03_read_env_dir_regenerated.
+
+
 
 
 
